@@ -63,6 +63,7 @@ type Ctx struct {
 	Exhaustive  bool
 	Closed      bool
 	Pruned      int64
+	Foreign     int64
 	start       time.Time
 	Deadline    time.Time
 	MaxViol     int
@@ -220,7 +221,7 @@ func (c *Ctx) Finish() int {
 		"evaluations": c.Evals, "distinct_nontrivial": len(c.distinct), "rule": c.Rule,
 		"samples": c.Samples, "exhaustive": c.Exhaustive && len(c.Caps) == 0, "closed": c.Closed,
 		"bounds": c.Bounds, "per_world": c.PerWorld, "caps_hit": c.Caps,
-		"known_findings_reproduced": ksigs, "pruned_after_known_finding": c.Pruned,
+		"known_findings_reproduced": ksigs, "pruned_after_violation": c.Pruned, "pruned_foreign_divergence": c.Foreign,
 	}
 	for k, v := range c.Extra {
 		cov[k] = v
